@@ -115,16 +115,15 @@ RsrcOf(p) == Sib(p, RsrcPfx \o Base(p))
 InfoOf(p) == Sib(p, InfoPfx \o Base(p))
 
 (* ---- wire decoding of a path field: count(2) { 0 0 len name }* -------------- *)
-(* mirrors FilePath.Write: a missing / short item is an error; an item whose length runs past the end repeats the
-   previous item (the scanner keeps its last token) or is an error if there is none *)
+(* mirrors FilePath.Write: a missing / short item, or an item whose declared length runs past the end of the field,
+   yields no token: the path is rejected and the request has no effect *)
 RECURSIVE Items(_, _, _, _)
 Items(raw, pos, k, prev) ==
   IF k = 0 THEN [st |-> "ok", items |-> <<>>]
   ELSE IF Len(raw) - pos + 1 < 3 THEN [st |-> "err", items |-> <<>>]
   ELSE LET L == raw[pos + 2] IN
        IF pos + 2 + L > Len(raw)
-         THEN (IF prev = Absent THEN [st |-> "err", items |-> <<>>]
-               ELSE [st |-> "ok", items |-> [i \in 1..k |-> prev]])
+         THEN [st |-> "err", items |-> <<>>]
          ELSE LET it == SubSeq(raw, pos + 3, pos + 2 + L)
                   rest == Items(raw, pos + 3 + L, k - 1, it)
               IN [st |-> rest.st, items |-> <<it>> \o rest.items]
